@@ -2051,6 +2051,25 @@ pub fn prop_lane(cfg: &crate::report::RunCfg, rep: &mut crate::report::Report, p
         },
         Some(_) => return,
     };
-    let spec = BatchSpec { prop, scenarios, sessions, parallel: 16.min(sessions as usize), stream: 60, bin, wrapper, slow, pps_cap };
+    let mut spec = BatchSpec { prop, scenarios, sessions, parallel: 16.min(sessions as usize), stream: 60, bin, wrapper, slow, pps_cap };
     run_batch(cfg, rep, &spec);
+    // On a loaded machine sessions lose their progress verdicts to scheduling stalls and their completeness
+    // verdicts to kernel drops. Rather than ending short of the coverage floors, run up to two more half batches
+    // (streams 61, 62 of the case-id space) while fewer than two thirds of the planned sessions were fully judged.
+    if cfg.lane.is_none() {
+        for extra in 1..=2u64 {
+            spec.stream = 60 + extra;
+            spec.sessions = sessions / 2;
+            if cfg.replay_case.is_some() {
+                run_batch(cfg, rep, &spec); // a replayed case id names its stream; the others return at once
+                continue;
+            }
+            let judged = rep.get("live.sessions.timing_reliable").min(sessions - rep.get("live.sessions.kernel_udp_drops_seen").min(sessions));
+            if judged * 3 >= sessions * 2 && rep.get("live.sessions.inconclusive") + rep.get("live.sessions.not_started") == 0 {
+                break;
+            }
+            rep.count("live.extra_batches_for_coverage");
+            run_batch(cfg, rep, &spec);
+        }
+    }
 }
